@@ -68,6 +68,7 @@ class C18(Spec):
     component = 'c18'
     configs = ['default', 'default-dev']
     quick_count = 6000
+    header_len = 5            # (c18 dbg kind text expected): nothing to drop; dropping `expected` would turn a round-trip case into a plain text
     thorough_count = 200000
     trusted_base = COMMON_TB + ['modelled rather than verified: /repo/src/parse.rs (tokenize, crop_ident, parse_pattern*, RecExpr/Pattern/MultiPattern::parse, the Display impls), from_syntax/to_syntax through the signature model of C16, char::is_whitespace as the Unicode White_Space set']
     assumptions = ['payload values used in round-trip cases print unambiguously (generator pools); slots are created in a fresh thread per case']
